@@ -589,6 +589,8 @@ def e1_equality_coverage(prog):
                     t = t[1]
                 elif t[0] == 'cast':
                     t = t[2]
+                elif t[0] == 'down':
+                    t = t[1]           # payload of the field's enum value: part of the field
                 elif t[0] == 'it' and t[1] in ADAPT + ('rev',) and t[1] != 'rev':
                     t = t[2]
                 elif t[0] == 'call' and t[2]:
@@ -619,8 +621,39 @@ def e1_equality_coverage(prog):
                 return None
             fx, fy = side_field(x), side_field(y)
             if fx and fy and fx[1] == fy[1] and {fx[0], fy[0]} == {1, 2}:
-                return (fx[1], fx[2] or fy[2], eqv)
+                return [(fx[1], fx[2] or fy[2], eqv)]
+            # std tuples compare element by element
+            tx, ty_ = S_(x), S_(y)
+            while isinstance(tx, tuple) and tx[0] == 'd':
+                tx = S_(tx[1])
+            while isinstance(ty_, tuple) and ty_[0] == 'd':
+                ty_ = S_(ty_[1])
+            if isinstance(tx, tuple) and isinstance(ty_, tuple) and tx[0] == ty_[0] == 'agg' and tx[1] == ty_[1] == 'tuple' and len(tx[4]) == len(ty_[4]) and eqv:
+                out = []
+                for ex, ey in zip(tx[4], ty_[4]):
+                    fx, fy = side_field(ex), side_field(ey)
+                    if fx and fy and fx[1] == fy[1] and {fx[0], fy[0]} == {1, 2}:
+                        out.append((fx[1], fx[2] or fy[2], True))
+                return out or None
             return None
+
+        def same_empty_variant(conds, fld):
+            """both operands' field was found to be the same payload-free variant (None == None)"""
+            seen = {}
+            for a_, v in conds:
+                if isinstance(a_, tuple) and a_[0] == 'discr' and isinstance(v, int) and not isinstance(v, bool):
+                    sf = side_field(a_[1])
+                    if sf and sf[1] == fld and sf[2] is None:
+                        seen.setdefault(sf[0], set()).add(v)
+            if seen.get(1) and seen.get(1) == seen.get(2) and len(seen[1]) == 1:
+                d = next(iter(seen[1]))
+                fty = adt['variants'][0]['fields'][names.index(fld)]['ty']
+                if is_adt(fty, 'core::option::Option'):
+                    return d == 0
+                a2 = prog.adts.get(fty.get('path')) if fty.get('k') == 'adt' else None
+                if a2 and d < len(a2['variants']):
+                    return not a2['variants'][d]['fields']
+            return False
         S_ = pathsem.strip_refs
         n_true = 0
         reported = set()
@@ -630,11 +663,13 @@ def e1_equality_coverage(prog):
             if verdict not in (pathsem.TRUE, pathsem.FALSE):
                 conds.append((verdict, True))        # `a == b` returned directly: the true case
                 verdict = pathsem.TRUE
-            cmps = [c for c in (comparison(a_, v) for a_, v in conds if isinstance(v, bool)) if c]
+            cmps = [c for cs in (comparison(a_, v) for a_, v in conds if isinstance(v, bool)) if cs for c in cs]
             if verdict == pathsem.TRUE:
                 n_true += 1
                 for fld in fields:
                     hits = [c for c in cmps if c[0] == fld and c[2]]
+                    if not hits and same_empty_variant(conds, fld):
+                        continue
                     if not hits and ('n', fld) not in reported:
                         reported.add(('n', fld))
                         r.viol('E1', '%s/field-not-compared/%s' % (path, fld), f.loc(),
